@@ -225,7 +225,7 @@ CLAIMS = {
         'text': 'PARTIAL. Proved: what a path selects does not depend on the text/connected-text fields of its nodes '
                 '(C18_values_text_independent, on the specification), so spellings parsed to trees equal up to texts select the same '
                 'values; lexical facts: `space` eats exactly the blanks and emits nothing, + sign and leading zeros do not change an '
-                'integer, quote styles name the same key, `.*`/`[*]` run the same action. FROM THE PATH TEXT: for every non-empty name without control characters $["name"], $[\'name\'] and $.name are accepted and return the same results on every object or all fail (C18_name_spellings_agree). C18_dollar_optional: for every path of name / index / wildcard / slice steps (each after the first possibly after `..`) the text without its leading $ is accepted and returns the same results as the text with it, or both fail; C18_outer_spaces_same_tree: with any number of blanks before and after, Parse returns the very same tree. C18_dollar_optional_before_filters: the same when filters of every kind FiltChain covers follow the first step (NoDollarFilt.v). C18_equivalent_spellings_from_text (SpellText.v): two paths of steps and filters whose steps MEAN the same (navigate alike from every value) are both accepted and return the same results or both fail, with C18_spellings_that_mean_the_same: .name / [\'name\'] / ["name"], .* / [*], indexes and slice bounds with leading zeros or a plus sign (the number written), respelled filter operands, number literals denoting the same float, blanks inside comparison and existence filters, the same after `..`. Not proved: respellings inside the step kinds outside the text theorems (escapes, blanks inside brackets, multi-name selectors) '
+                'integer, quote styles name the same key, `.*`/`[*]` run the same action. FROM THE PATH TEXT: for every non-empty name without control characters $["name"], $[\'name\'] and $.name are accepted and return the same results on every object or all fail (C18_name_spellings_agree). C18_dollar_optional: for every path of name / index / wildcard / slice steps (each after the first possibly after `..`) the text without its leading $ is accepted and returns the same results as the text with it, or both fail; C18_outer_spaces_same_tree: with any number of blanks before and after, Parse returns the very same tree. C18_dollar_optional_before_filters: the same when filters of every kind FiltChain covers follow the first step (NoDollarFilt.v). C18_outer_spaces_same_tree_with_filters: blanks around a path with filters give the very same tree. C18_equivalent_spellings_from_text (SpellText.v): two paths of steps and filters whose steps MEAN the same (navigate alike from every value) are both accepted and return the same results or both fail, with C18_spellings_that_mean_the_same: .name / [\'name\'] / ["name"], .* / [*], indexes and slice bounds with leading zeros or a plus sign (the number written), respelled filter operands, number literals denoting the same float, blanks inside comparison and existence filters, the same after `..`. Not proved: respellings inside the step kinds outside the text theorems (escapes, blanks inside brackets, multi-name selectors) '
                 'and the same-error-step half. Tie: every generated AST in 2..6 spellings must agree on the real '
                 'library and with the model.',
         'note': NOTE_COMMON, 'technique': 'Coq proof on the specification + lexical lemmas on the regenerated grammar + spelling-group oracle'},
